@@ -180,6 +180,24 @@ fn detail(cfg: &NetCfg, params: &[P], x: &[f32]) -> J {
 
 // ---------------------------------------------------------------------------------------
 
+/// Sets a random subset of the values to exactly 0.0 ("sparse" data: black image background,
+/// pruned weights) - value-dependent shortcuts in a backward pass show up here.
+fn sparsify(rng: &mut Rng, v: &mut [f32], p: f64) {
+    for x in v.iter_mut() {
+        if rng.chance(p) {
+            *x = 0.0;
+        }
+    }
+}
+
+fn sparsify_params(rng: &mut Rng, params: &mut [P], p: f64) {
+    for q in params.iter_mut() {
+        let mut v = q.flat();
+        sparsify(rng, &mut v, p);
+        q.set_flat(&v);
+    }
+}
+
 fn layer_case(rng: &mut Rng, idx: u64, out: &mut Out) {
     let kinds = ["conv", "deconv", "dense", "pool", "conv", "deconv"];
     let kind = kinds[(idx % 6) as usize];
@@ -208,9 +226,21 @@ fn layer_case(rng: &mut Rng, idx: u64, out: &mut Out) {
     out.cover("layer_kinds", kind.to_string());
     // find a well-conditioned instance
     let mut found = None;
+    // every fourth block of cases: inputs, parameters and upstream gradient with exact zeros
+    let sparse = (idx / 30) % 4 == 3;
+    if sparse {
+        out.count("layer_cases_with_exact_zeros_in_input_parameters_and_upstream_gradient", 1);
+    }
     for _ in 0..25 {
-        let params = gen_params(&cfg, rng, -1.5, 1.5).unwrap();
-        let x = random_input(rng, input);
+        let mut params = gen_params(&cfg, rng, -1.5, 1.5).unwrap();
+        let mut x = random_input(rng, input);
+        if sparse {
+            // (zeros in the input of a max-pool layer would only create ties)
+            if kind != "pool" {
+                sparsify(rng, &mut x, 0.4);
+            }
+            sparsify_params(rng, &mut params, 0.3);
+        }
         let r: RNet<f64> = RNet::plain(&cfg, &params);
         let tr = r.forward(&Val::from_f32(cfg.input, &x));
         if well_conditioned(&cfg.layers, &tr) {
@@ -228,7 +258,10 @@ fn layer_case(rng: &mut Rng, idx: u64, out: &mut Out) {
         }
     };
     let out_sh = tr.output().sh;
-    let u: Vec<f32> = rng.distinct_f32(out_sh.count(), -1.5, 1.5);
+    let mut u: Vec<f32> = rng.distinct_f32(out_sh.count(), -1.5, 1.5);
+    if sparse {
+        sparsify(rng, &mut u, 0.3);
+    }
     let net = match build(&cfg, Some(&params)) {
         Ok(n) => n,
         Err(m) => {
@@ -408,9 +441,19 @@ fn network_case(rng: &mut Rng, idx: u64, out: &mut Out) {
         out.cover("layer_geometries", l.geometry());
     }
     let mut found = None;
+    let sparse = (idx / 11) % 6 == 5;
+    if sparse {
+        out.count("network_cases_with_exact_zeros_in_input_and_parameters", 1);
+    }
     for _ in 0..25 {
-        let params = gen_params(&cfg, rng, -1.2, 1.2).unwrap();
-        let x = random_input(rng, cfg.input);
+        let mut params = gen_params(&cfg, rng, -1.2, 1.2).unwrap();
+        let mut x = random_input(rng, cfg.input);
+        if sparse {
+            if !matches!(cfg.layers[0], LCfg::Pool { .. }) {
+                sparsify(rng, &mut x, 0.4);
+            }
+            sparsify_params(rng, &mut params, 0.2);
+        }
         let r: RNet<f64> = RNet::plain(&cfg, &params);
         let tr = r.forward(&Val::from_f32(cfg.input, &x));
         let pred = tr.output().values();
@@ -633,7 +676,7 @@ impl Monitor for C01 {
         vec![("layers", tier.pick(97_200, 1_555_200)), ("networks", tier.pick(18_900, 302_400))]
     }
     fn rule(&self) -> &'static str {
-        "layers: case i -> (kind in conv/deconv/dense/pool, activation, geometry from the covering walk over the 108 (kernel 1..3, stride 1..3, padding 0..3, dilation 1..3) tuples per axis, channels/filters 1..3, extents up to 7, repetition-free weights/inputs/upstream gradient in [-1.5,1.5]); the layer's public backward(u, x, pre) is compared entry by entry with the forward-mode dual-number derivative of <u, post(x; theta)> w.r.t. every input element and every weight/bias/kernel element (|g - d| <= 16 * de + 1e-5 * m: de = first-order bound on the deviation of a correct f32 evaluation incl. the effect of forward rounding on the derivative factors, m = the same derivative on absolute values); the input gradient must have the input's shape. networks: depth 2..5, any mix of dense/conv/deconv/pool that fits, every third with one or two feedback blocks (1..3 loops, no skips; gradients compared per unrolled copy), all seven objectives; gradients taken from the hooked Network::backward, (every third case) from the parameter change of one learn() step with plain SGD, or (every fifth block of cases) from the hooked backward of a network object that has already been trained for 1..3 steps (oracle at the parameters read back from it); oracle = derivative of the objective value for AE/MSE/BCE/KL and for soft-max + cross-entropy, of <objective gradient, output> for MAE/RMSE/CE. Instances within 1e-3 of a ReLU kink / pool tie or with saturated sigmoid (pre > 6) are regenerated. Distinct = distinct configuration descriptors."
+        "layers: case i -> (kind in conv/deconv/dense/pool, activation, geometry from the covering walk over the 108 (kernel 1..3, stride 1..3, padding 0..3, dilation 1..3) tuples per axis, channels/filters 1..3, extents up to 7, repetition-free weights/inputs/upstream gradient in [-1.5,1.5], in every fourth block of cases with 30-40% of them set to exactly 0); the layer's public backward(u, x, pre) is compared entry by entry with the forward-mode dual-number derivative of <u, post(x; theta)> w.r.t. every input element and every weight/bias/kernel element (|g - d| <= 16 * de + 1e-5 * m: de = first-order bound on the deviation of a correct f32 evaluation incl. the effect of forward rounding on the derivative factors, m = the same derivative on absolute values); the input gradient must have the input's shape. networks: depth 2..5, any mix of dense/conv/deconv/pool that fits, every third with one or two feedback blocks (1..3 loops, no skips; gradients compared per unrolled copy), all seven objectives; gradients taken from the hooked Network::backward, (every third case) from the parameter change of one learn() step with plain SGD, or (every fifth block of cases) from the hooked backward of a network object that has already been trained for 1..3 steps (oracle at the parameters read back from it); oracle = derivative of the objective value for AE/MSE/BCE/KL and for soft-max + cross-entropy, of <objective gradient, output> for MAE/RMSE/CE. Instances within 1e-3 of a ReLU kink / pool tie or with saturated sigmoid (pre > 6) are regenerated. Distinct = distinct configuration descriptors."
     }
     fn assumptions(&self) -> Vec<&'static str> {
         vec![
